@@ -162,25 +162,67 @@ pub struct CliRun {
     pub saw_running_line: bool,
 }
 
-pub fn strip_log_lines(stdout: &[u8], path: &Path, level: u8) -> (Vec<u8>, bool) {
+/// The tool writes its own log lines (`==> parsing FILE`, `==> optimizing to level N`, `==> running code`) to stdout before the
+/// program's output. Their wording is not part of any property, so it is *calibrated*: an empty program (no commands, no output) is
+/// run once per level and whatever the tool prints for it, with the file path abstracted, is the template that is stripped later.
+static LOG_TEMPLATES: std::sync::OnceLock<[Vec<String>; 3]> = std::sync::OnceLock::new();
+
+fn default_templates() -> [Vec<String>; 3] {
+    let l = |level: u8| {
+        let mut v = vec!["==> parsing {path}\n".to_string()];
+        if level >= 1 {
+            v.push(format!("==> optimizing to level {}\n", level));
+        }
+        v.push("==> running code\n".to_string());
+        v
+    };
+    [l(0), l(1), l(2)]
+}
+
+pub fn log_templates(bin: &Path, scratch: &Path) -> &'static [Vec<String>; 3] {
+    LOG_TEMPLATES.get_or_init(|| {
+        let mut t = default_templates();
+        for level in 0u8..3 {
+            let dir = scratch_dir(scratch, "calib");
+            let file = dir.join("p.hyeong");
+            if std::fs::write(&file, "").is_err() {
+                continue;
+            }
+            let lvl = format!("-O{}", level);
+            let r = run(bin, &["--color", "never", "run", &lvl, file.to_str().unwrap()], &RunOpts::new(b""));
+            let _ = std::fs::remove_dir_all(&dir);
+            if let Ok(r) = r {
+                if r.status == Status::Code(0) {
+                    if let Ok(text) = String::from_utf8(r.stdout) {
+                        let p = file.to_str().unwrap();
+                        t[level as usize] = text.split_inclusive('\n').map(|l| l.replace(p, "{path}")).collect();
+                    }
+                }
+            }
+        }
+        t
+    })
+}
+
+pub fn strip_log_lines_with(templates: &[Vec<String>; 3], stdout: &[u8], path: &Path, level: u8) -> (Vec<u8>, bool) {
     let mut rest = stdout;
-    let mut saw_running = false;
-    let l1 = format!("==> parsing {}\n", path.display());
-    if rest.starts_with(l1.as_bytes()) {
-        rest = &rest[l1.len()..];
-    }
-    if level >= 1 {
-        let l2 = format!("==> optimizing to level {}\n", level);
-        if rest.starts_with(l2.as_bytes()) {
-            rest = &rest[l2.len()..];
+    let lines = &templates[level.min(2) as usize];
+    let mut stripped = 0;
+    let p = path.to_str().unwrap_or("");
+    for l in lines {
+        let line = l.replace("{path}", p);
+        if !line.is_empty() && rest.starts_with(line.as_bytes()) {
+            rest = &rest[line.len()..];
+            stripped += 1;
+        } else {
+            break; // an error can end the run before the later log lines are printed
         }
     }
-    let l3 = b"==> running code\n";
-    if rest.starts_with(l3) {
-        rest = &rest[l3.len()..];
-        saw_running = true;
-    }
-    (rest.to_vec(), saw_running)
+    (rest.to_vec(), stripped == lines.len())
+}
+
+pub fn strip_log_lines(stdout: &[u8], path: &Path, level: u8) -> (Vec<u8>, bool) {
+    strip_log_lines_with(&default_templates(), stdout, path, level)
 }
 
 pub fn run_hyeong(bin: &Path, scratch: &Path, program_text: &str, level: u8, stdin: &[u8], opts_mod: impl FnOnce(&mut RunOpts)) -> std::io::Result<CliRun> {
@@ -191,7 +233,7 @@ pub fn run_hyeong(bin: &Path, scratch: &Path, program_text: &str, level: u8, std
     let mut opts = RunOpts::new(stdin);
     opts_mod(&mut opts);
     let raw = run(bin, &["--color", "never", "run", &lvl, file.to_str().unwrap()], &opts)?;
-    let (out, saw) = strip_log_lines(&raw.stdout, &file, level);
+    let (out, saw) = strip_log_lines_with(log_templates(bin, scratch), &raw.stdout, &file, level);
     let _ = std::fs::remove_dir_all(&dir);
     Ok(CliRun { raw, out, saw_running_line: saw })
 }
